@@ -271,16 +271,16 @@ PROPS = {
     "C14": {
         "num": 14,
         "vo": ["Properties/C14.vo"],
-        "rule": "for each of 1500 (quick) / 4000 (thorough) random pairs of event sequences (up to 3+3 quick, 4+4 thorough; 1..3 keys, keyless events, timestamps over 4..12 values, "
+        "rule": "Manager histories: 2500 (quick) / 20000 (thorough) with 1..3 joins over 2..4 streams (a stream may feed several joins, on either side; one stream nobody consumes), events, watermarks, unregistration and late registration; deliveries observed through the handlers in order and compared with the model. for each of 1500 (quick) / 4000 (thorough) random pairs of event sequences (up to 3+3 quick, 4+4 thorough; 1..3 keys, keyless events, timestamps over 4..12 values, "
                 "windows 0..5, 3 join conditions) ALL merges of the two arrival orders are run; every third merge additionally with watermark updates between arrivals (non-evicting and evicting); "
                 "non-trivial = at least one pair emitted",
-        "level_text": "Theorem for every join condition, window, number of events/keys and EVERY interleaving of the two streams' arrivals: the emitted pairs are a permutation of the reference join "
+        "level_text": "StreamJoinManager: for joins registered under different ids over two different streams each, and ANY traffic (events of any streams, watermarks, any order), the pairs handed to a join's handler are exactly what its node emits on the join's own projection of the traffic (C14_manager_delivers_projection); until an eviction that is the reference join of the events of its two streams (C14_manager_join_exact_until_eviction). Theorem for every join condition, window, number of events/keys and EVERY interleaving of the two streams' arrivals: the emitted pairs are a permutation of the reference join "
                 "(each pair exactly once), hence interleaving-independent. Proved by a buffer invariant over the op list, now WITH watermark updates anywhere in the history (Proofs/JoinWmProofs.v): as long as no update finds an expired event "
                 "the emitted pairs are exactly the reference join - the re-scan of update_watermark emits nothing (invariant: every satisfying buffered pair was emitted and flagged on both sides when its later event arrived) and the "
                 "eviction pass returns buffers and flags unchanged. Histories in which something is evicted are covered by the Coq-defined monitor Join.ok (duplicate-free subset of the reference join) on the real "
                 "StreamJoinNode, and by model-vs-code comparison of every emission.",
         "level_note": "Trusted: Coq kernel; model of stream_join_node.rs (Inner/TimeWindow; closures as parameters; event ids unique); harness; extraction. Theorem is partial w.r.t. watermark updates (named "
-                "..._partial). StreamJoinManager routing not modelled. Axioms: none.",
+                "..._partial). Self-joins (one stream on both sides) are not generated. Axioms: none.",
         "trusted_base": [],
         "assumptions": ["event ids are unique per stream; window and timestamps in the code's own unit (duration.as_secs() vs raw timestamps)"],
     },
